@@ -21,7 +21,7 @@ LITERAL = {
     '_': ' _ ', '^': ' ^ ', '~': ' ~ ', '*': ' * ', '[': ' \\[ ', ']': ' \\] ', '(': ' ( ', ')': ' ) ', '/': ' / ', '`': ' \\` ', 'é': ' é ', '中': ' 中 ', '\U0001F600': ' \U0001F600 ',
     '=': ' = ', '+': ' + ', '!': ' ! ', '@': ' @ ', ';': ' ; ', ',': ' , ', '?': ' ? ',
     # sequences that look like the beginning or end of markup but are plain text on their own (smart typography is off here)
-    '<!--': ' <!-- ', '-->': ' --> ', ']]>': ' \\]\\]> ', '&#': ' &# ', '<!': ' <! ', '</': ' </ ', '<?': ' <? ', '--': ' -- ', '...': ' ... ', '~>': ' ~> ', '<<': ' << ', '>>': ' >> ',
+    '<!--': ' <!-- ', '-->': ' --> ', ']]>': ' \\]\\]> ', '&#': ' &# ', '<!': ' <! ', '</': ' </ ', '<?': ' <? ', '--': ' -- ', '...': ' ... ', '~>': ' ~> ', '<<': ' << ', '>>': ' >> ', '{=': ' {= ', '=}': ' =} ',
 }
 TEXT_SLOTS = ['paragraph', 'atx-heading', 'atx-closed', 'setext-heading', 'bullet-item', 'enum-item', 'loose-item', 'quote', 'table-cell', 'table-head', 'definition', 'term',
               'link-text', 'inline-footnote', 'ref-footnote', 'emphasis', 'strong', 'meta-title', 'meta-custom']
@@ -135,7 +135,7 @@ def check_nesting(fname, out):
 def seqkey(p):
     """key suffix naming a multi-character payload (a marker-like sequence), nothing for single characters"""
     q = p.replace('\\', '').strip()
-    return (':seq:' + q) if len(q) > 1 and not q.isalnum() and q in ('<!--', '-->', ']]>', '&#', '<!', '</', '<?', '--', '...', '~>', '<<', '>>') else ''
+    return (':seq:' + q) if len(q) > 1 and not q.isalnum() and q in ('<!--', '-->', ']]>', '&#', '<!', '</', '<?', '--', '...', '~>', '<<', '>>', '{=', '=}') else ''
 
 
 def escaping_case(r, s, rng, i):
@@ -307,13 +307,93 @@ def construct_of(text, word):
     return 'unknown'
 
 
+ADDR_LOCAL = 'abcXYZ019-+_./!%~$'
+ADDR_DOMAIN = list('abcxyzQ0189-._') + ['&', '%', '$', '#', '~', '^', '{', '}', "'", '=', '+', '!', ';', ',', '?', '*', 'é', 'ä', '中', 'ß', '\U0001F600', 'ñ']
+
+
+def letters(t):
+    return ''.join(ch for ch in t if ch.isalnum() or ord(ch) > 127)
+
+
+def address_case(r, s, rng, i):
+    """<address@domain> and <scheme://...> autolinks: the address is document text -- shown once as the link text, reserved characters escaped,
+    characters outside ASCII carried as themselves (or as a character reference that decodes to them)"""
+    items = []
+    for k in range(rng.randint(1, 4)):
+        if rng.random() < 0.6:
+            a = ''.join(rng.choice(ADDR_LOCAL) for _ in range(rng.randint(1, 8))) + '@' + 'd' + ''.join(rng.choice(ADDR_DOMAIN) for _ in range(rng.randint(1, 12))) + rng.choice(['.com', '.org', '.de', ''])
+            items.append(('email', a))
+        else:
+            a = rng.choice(['http', 'https', 'ftp', 'x-app']) + '://h' + ''.join(rng.choice(ADDR_DOMAIN + ['/', '/', ':', '@']) for _ in range(rng.randint(1, 16)))
+            items.append(('url', a))
+    text = '\n\n'.join('qa%dq <%s> qb%dq' % (k, a, k) if rng.random() < 0.7 else '* item\n\n    qa%dq <%s> qb%dq' % (k, a, k) for k, (kind, a) in enumerate(items)) + '\n'
+    src = text.encode('utf-8')
+    for fname in ('html', 'latex', 'beamer', 'memoir', 'fodt'):
+        fmt = D.FMT[fname]
+        rq = D.req_to_json('asan', 'CONVERT', fmt, EXT, 0, 1 | (1 << 4), [src])
+        rep = s.call('asan', 'CONVERT', fmt, EXT, 0, 1 | (1 << 4), [src], crash_is_violation=False)
+        r.evaluations += 1
+        if rep is None or rep.status:
+            continue
+        out = rep.out.decode('utf-8', 'replace')
+        case = dict(requests=[rq])
+        for k, (kind, a) in enumerate(items):
+            seg = between(out, 'qa%dq' % k, 'qb%dq' % k)
+            if seg is None:
+                r.violate('lost:%s:%s' % (fname, kind), 'the text around a %s autolink is missing from the %s output' % (kind, fname), case, core.show(src, 400))
+                continue
+            seg = seg.strip()
+            if fname in ('html', 'fodt'):
+                m = re.match(r'^<a href="([^"]*)">(.*)</a>$' if fname == 'html' else r'^<text:a xlink:type="simple" xlink:href="([^"]*)">(.*)</text:a>$', seg, re.S)
+                if not m:
+                    if seg.startswith('&lt;'):
+                        r.stats['address not recognised as an autolink (plain text, may hold markup)'] += 1
+                        continue
+                    r.violate('address-markup:%s:%s' % (fname, kind), '%s renders the %s autolink %r as %r' % (fname, kind, a, seg[:160]), case, core.show(src, 400))
+                    continue
+                href, txt = m.group(1), m.group(2)
+                r.stats['autolinks_checked'] += 1
+                if not HTML_OK.match(href) or not HTML_TEXT_OK.match(txt):
+                    r.violate('unescaped:%s:address:%s' % (fname, kind), 'reserved character of the %s autolink %r reaches %s unescaped: %r' % (kind, a, fname, seg[:160]), case, core.show(src, 400))
+                    continue
+                try:
+                    shown, target = unescape_xml(txt), unescape_xml(href)
+                except (ValueError, OverflowError):
+                    shown = target = None
+                if shown != a:
+                    r.violate('address-text-altered:%s:%s' % (fname, kind), 'link text of the %s autolink %r decodes to %r in %s' % (kind, a, shown, fname), case, seg[:300] + '\n' + core.show(src, 400))
+                elif target != (('mailto:' + a) if kind == 'email' else a):
+                    r.violate('address-target-altered:%s:%s' % (fname, kind), 'target of the %s autolink %r decodes to %r in %s' % (kind, a, target, fname), case, seg[:300] + '\n' + core.show(src, 400))
+            else:
+                m = re.match(r'^\\href\{((?:[^{}\\]|\\.)*)\}\{(.*)\}$', seg, re.S)
+                if not m:
+                    if seg.startswith('\\href{'):
+                        r.violate('address-markup:%s:%s' % (fname, kind), '%s renders the %s autolink %r as %r: the first argument of \\href holds a bare brace' % (fname, kind, a, seg[:160]), case, core.show(src, 400))
+                    else:
+                        r.stats['address not recognised as an autolink (plain text, may hold markup)'] += 1
+                    continue
+                txt = m.group(2)
+                r.stats['autolinks_checked'] += 1
+                if not LATEX_OK.match(txt):
+                    r.violate('unescaped:%s:address:%s' % (fname, kind), 'reserved character of the %s autolink %r reaches %s unescaped: %r' % (kind, a, fname, txt[:160]), case, core.show(src, 400))
+                elif letters(unescape_latex(txt)) != letters(a):
+                    r.violate('address-text-altered:%s:%s' % (fname, kind), 'link text of the %s autolink %r reads %r in %s' % (kind, a, txt[:160], fname), case, core.show(src, 400))
+        err = check_nesting(fname, out)
+        if err:
+            r.violate('nesting:%s' % fname, '%s markup is not properly nested: %s' % (fname, err), case, core.show(src, 400))
+    r.distinct.add(core.h64(src))
+    r.sets['slot_kinds'].add('autolink-address')
+
+
 def work(job):
     seed, lo, hi = job
     r = core.JobResult()
     with core.Session(r) as s:
         for i in range(lo, hi):
             rng = core.job_rng(seed, ID, i)
-            if i % 2 == 0:
+            if i % 7 == 3:
+                address_case(r, s, rng, i)
+            elif i % 2 == 0:
                 escaping_case(r, s, rng, i)
             else:
                 conservation_case(r, s, rng, i)
